@@ -22,7 +22,7 @@ import (
 func init() {
 	h.Register(&h.Prop{
 		ID:   "C05",
-		Rule: "libadv (LIBRARY level: real DistKeyGenerators driven directly by ProcessDeal / ProcessResponse / ProcessJustification, observed at Certified()/QUAL()/DistKeyShare() of every honest member): n in 3..5, Byzantine seat dealing one consistent polynomial to everybody except a victim that gets one of 29 deal deviations, followed by no / a valid / an invalid / a foreign-index / another-polynomial justification; the deviation to everybody; equivocation; forged, unsigned, mis-signed, out-of-range, missing, duplicated responses and complaints about an honest dealer with the dealer's justification delivered to nobody / everybody; pairs; orders canonical, responses before deals, seeded shuffles, everything twice (all in thorough, n = 4, 5 sampled in quick); adv: n in 3..5, one Byzantine member; fault catalogue (bad share, equivocating commitments with and without cross-wired session ids, T in {0,1,n+1,2^32-1} bound/unbound, self-consistent deals of threshold 0,1,2,n+1,2n (exactly T commitments, fitting share and session id), wrong index (small, out of range, equal to the own index modulo 2^32), other-length commitments, missing share/value, raw session id, junk / missing / redirected / previous-session deal, slot pre-emption under an honest or out-of-range index; forged PublicKey messages (another member's / the own / an out-of-range index, outsider as sender, the adversary's own key twice, SenderId field pre-filled with the claimed member's / the victim's / the forger's id or garbage; before the starts, after the starts, immediately before the genuine key), three Byzantine seats sharing one key with re-labelled approvals; response with bad / missing / foreign signature, foreign or previous session id, complaint about an honest dealer or about the recipient's own deal, relabelled or previous-session genuine response, missing response, out-of-range responder) injected at every position of the honest delivery sequence (all in thorough and for n=3,4 in quick; sampled for n=5 in quick), pairs of faults in thorough (n = 3: every pair sampled 1/8 per seed, n = 4, 5: 500 / 300 random pairs); non-trivial = every case (each has at least one adversarial message); distinct = distinct case line",
+		Rule: "netadv (the REAL pdkg.Loop/Grouping of the honest members over the in-memory network, which sets msg.Sender; Byzantine seats are network nodes driven by the harness with a real generator of their own): n=3 one seat, n=5 two seats (thorough also n=4 and seats 0,2), shuffled start order; the seat's deals (bad share, other polynomial, self-consistent threshold 1, index modulo 2^32, junk, missing share, consistent adversary polynomial), its Responses message (complaint, bad/no signature, raw session id, missing, out-of-range responder), forged PublicKey messages sent before anybody starts (SenderId empty / pre-filled with the claimed member's id, the victim's, garbage; the seat's own key), both seats deviating together; libadv (LIBRARY level: real DistKeyGenerators driven directly by ProcessDeal / ProcessResponse / ProcessJustification, observed at Certified()/QUAL()/DistKeyShare() of every honest member): n in 3..5, Byzantine seat dealing one consistent polynomial to everybody except a victim that gets one of 29 deal deviations, followed by no / a valid / an invalid / a foreign-index / another-polynomial justification; the deviation to everybody; equivocation; forged, unsigned, mis-signed, out-of-range, missing, duplicated responses and complaints about an honest dealer with the dealer's justification delivered to nobody / everybody; pairs; orders canonical, responses before deals, seeded shuffles, everything twice (all in thorough, n = 4, 5 sampled in quick); adv: n in 3..5, one Byzantine member; fault catalogue (bad share, equivocating commitments with and without cross-wired session ids, T in {0,1,n+1,2^32-1} bound/unbound, self-consistent deals of threshold 0,1,2,n+1,2n (exactly T commitments, fitting share and session id), wrong index (small, out of range, equal to the own index modulo 2^32), other-length commitments, missing share/value, raw session id, junk / missing / redirected / previous-session deal, slot pre-emption under an honest or out-of-range index; forged PublicKey messages (another member's / the own / an out-of-range index, outsider as sender, the adversary's own key twice, SenderId field pre-filled with the claimed member's / the victim's / the forger's id or garbage; before the starts, after the starts, immediately before the genuine key), three Byzantine seats sharing one key with re-labelled approvals; response with bad / missing / foreign signature, foreign or previous session id, complaint about an honest dealer or about the recipient's own deal, relabelled or previous-session genuine response, missing response, out-of-range responder) injected at every position of the honest delivery sequence (all in thorough; quick: a sample of 1/4, 1/8, 1/12 of the (fault, position) instances for n = 3, 4, 5), pairs of faults in thorough (n = 3: every pair sampled 1/8 per seed, n = 4, 5: 500 / 300 random pairs); non-trivial = every case (each has at least one adversarial message); distinct = distinct case line",
 		Gen:  gen,
 		Exec: exec,
 	})
@@ -44,6 +44,9 @@ func exec(line string) (res h.Result) {
 	}
 	if w[0] == "libadv" {
 		return execLib(w)
+	}
+	if w[0] == "netadv" {
+		return execNetAdv(w)
 	}
 	if w[0] != "adv" {
 		panic("bad case line")
@@ -438,19 +441,37 @@ func dupKeys(seed func() uint64, emit func(string)) {
 func gen(tier string, rng *h.Rng, emit func(string)) {
 	// the history cases come first and draw from their own stream (the stream of the adv cases is what it was)
 	fork := *rng
+	thorough := tier == "thorough"
 	only := os.Getenv("VERIF_C05_ONLY") // development knob: "hist" / "adv" runs one family only
-	if only != "adv" && only != "lib" {
-		genHist(tier, h.NewRng(fork.U64()^0xC05D), emit)
+	if only != "adv" && only != "lib" && only != "net" {
+		// quick: every other history line (the generator's own sampling was sized before the library- and
+		// network-level families existed; the quick run has to stay near three minutes)
+		hk := 0
+		genHist(tier, h.NewRng(fork.U64()^0xC05D), func(l string) {
+			if thorough || hk%2 == 0 {
+				emit(l)
+			}
+			hk++
+		})
 	}
-	if only != "adv" && only != "hist" {
+	if only != "adv" && only != "hist" && only != "net" {
 		// library level: its own stream too
 		fork2 := *rng
-		genLib(tier, h.NewRng(fork2.U64()^0x11BADF), emit)
+		lk := 0
+		genLib(tier, h.NewRng(fork2.U64()^0x11BADF), func(l string) {
+			if thorough || lk%3 != 2 {
+				emit(l)
+			}
+			lk++
+		})
 	}
-	if only == "hist" || only == "lib" {
+	if only == "" || only == "net" {
+		fork3 := *rng
+		genNetAdv(tier, h.NewRng(fork3.U64()^0x4E7AD5), emit)
+	}
+	if only == "hist" || only == "lib" || only == "net" {
 		return
 	}
-	thorough := tier == "thorough"
 	seed := func() uint64 { return rng.U64() >> 1 }
 	for n := 3; n <= 5; n++ {
 		bs := []int{n - 1}
@@ -467,10 +488,14 @@ func gen(tier string, rng *h.Rng, emit func(string)) {
 			// 1. single faults at every position
 			inst := instances(n, b)
 			for _, in := range inst {
-				if !thorough && n == 5 && rng.Intn(4) != 0 {
+				// quick: a sample of the (fault, position) instances (1/4, 1/8, 1/12); thorough: all of them
+				if !thorough && n == 5 && rng.Intn(12) != 0 {
 					continue
 				}
-				if !thorough && n == 4 && rng.Intn(2) != 0 {
+				if !thorough && n == 4 && rng.Intn(8) != 0 {
+					continue
+				}
+				if !thorough && n == 3 && rng.Intn(4) != 0 {
 					continue
 				}
 				emit(build(seed(), n, b, []injection{in}))
@@ -591,9 +616,9 @@ func gen(tier string, rng *h.Rng, emit func(string)) {
 					np = 300
 				}
 			} else if n == 3 {
-				np = 60
+				np = 20
 			} else {
-				np = 25
+				np = 8
 			}
 			if n == 3 && thorough && len(inst)*len(inst) <= 40000 {
 				for a := 0; a < len(inst); a++ {
